@@ -174,6 +174,9 @@ def make_plan(version, target, phase, byz, rng, extra=None):
     d = {"byz": byz, "seed": rng.randrange(1 << 30)}
     if extra:
         d.update(extra)
+    if rng.random() < 0.3:
+        # the hostile bytes arrive late inside the 2 s read window (or just outside it)
+        d["lat"] = rng.choice([0.5, 1.0, 1.3, 1.7, 1.999, 2.001, 3.3])
     return {"config": {"version": version, "token": rand_bytes(rng, 64).hex(), "key": rand_bytes(rng, 32).hex(),
                        "device_id": rng.getrandbits(48)},
             "target": target, "phase": phase, "directive": d, "retries": rng.choice([1, 1, 2])}
